@@ -25,18 +25,22 @@ Tr == Traces[tid]
 Ev == Tr.events
 Rng(s) == {s[i] : i \in DOMAIN s}
 
-ObsPk(s) == [i \in 1..Len(s) |-> [p |-> Mk(s[i].p), dk |-> s[i].dk]]
-ObsTun(s) == [i \in 1..Len(s) |-> [p |-> Mk(s[i].p), fam |-> s[i].fam]]
+(* logged addresses are JSON objects {"ip": ..., "port": ...}: the records Addr(ip, port) of ExitPolicy *)
+ObsPk(s) == [i \in 1..Len(s) |-> [p |-> Mk(s[i].p), dk |-> s[i].dk, a |-> s[i].a]]
+ObsTun(s) == [i \in 1..Len(s) |-> [p |-> Mk(s[i].p), fam |-> s[i].fam, a |-> s[i].a]]
 
 TraceInit == /\ tid \in 1..Len(Traces) /\ l = 1
              /\ flags = Rng(Tr.flags) /\ prefix = Tr.prefix
              /\ st = "disabled" /\ queue = <<>> /\ pend = <<>> /\ emit = <<>> /\ tun = <<>>
              /\ opener = "none" /\ ops = 0
+             /\ asked = {} /\ sentTo = {} /\ heard = {}
 
-Step(e) == CASE e.k = "data" -> DataFromTunnel(e.src, e.dk, Mk(e.p))
+(* data: a = destination written into the DATA cell; res: rip = the address the harness' resolver answers;        *)
+(* out: a = source address of the datagram handed to the socket's protocol                                         *)
+Step(e) == CASE e.k = "data" -> DataFromTunnel(e.src, e.dk, e.a, Mk(e.p))
              [] e.k = "tr" -> TransportReady
-             [] e.k = "res" -> ResolveDone(e.i)
-             [] e.k = "out" -> OutsideDatagram(e.fam, Mk(e.p))
+             [] e.k = "res" -> ResolveDone(e.i, e.rip)
+             [] e.k = "out" -> OutsideDatagram(e.fam, e.a, Mk(e.p))
              [] e.k = "close" -> Close
 
 TraceNext == /\ l <= Len(Ev)
@@ -55,7 +59,9 @@ TraceSpec == TraceInit /\ [][TraceNext]_tvars
 TraceAccepted == l <= Len(Ev) => ENABLED TraceNext
 
 -----------------------------------------------------------------------------
-(* The property on the observations alone. *)
+(* The property on the observations alone.  Nothing in it depends on which outside address a packet is for or    *)
+(* from, nor on what the socket did with that address earlier: the traces contain datagrams from addresses the    *)
+(* socket sent allowed packets to / was asked to send to / accepted datagrams from, and data towards them.        *)
 
 ObsNext == /\ l <= Len(Ev) /\ l' = l + 1 /\ UNCHANGED <<vars, tid>>
 ObsSpec == TraceInit /\ [][ObsNext]_tvars
